@@ -68,9 +68,9 @@ func (a lform) nonneg() bool {
 	if a.c < 0 {
 		return false
 	}
-	for _, v := range a.t {
-		if v < 0 {
-			return false
+	for k, v := range a.t {
+		if v < 0 || strings.HasPrefix(k, "s:") {
+			return false // an atom of unknown sign (an int parameter) has to cancel out
 		}
 	}
 	return true
@@ -91,6 +91,16 @@ func lmin(a, b lform) lform {
 	out.c = a.c
 	if b.c < out.c {
 		out.c = b.c
+	}
+	for k := range a.t {
+		if strings.HasPrefix(k, "s:") && a.t[k] != b.t[k] {
+			return lform{c: -1 << 40, t: map[string]int64{}}
+		}
+	}
+	for k := range b.t {
+		if strings.HasPrefix(k, "s:") && a.t[k] != b.t[k] {
+			return lform{c: -1 << 40, t: map[string]int64{}}
+		}
 	}
 	for k, v := range a.t {
 		w := b.t[k]
@@ -133,6 +143,7 @@ type lenEng struct {
 	paramMin map[*ssa.Parameter]*lform
 	pure     map[string]bool
 	callers  map[*ssa.Function][]*ssa.Call
+	signed   map[string]*ssa.Parameter
 	escapes  map[*ssa.Function]bool
 }
 
@@ -1034,6 +1045,9 @@ func (e *lenEng) intUpper(v ssa.Value, at *ssa.BasicBlock, d int) (lform, bool) 
 			}
 		}
 	}
+	if p, ok := v.(*ssa.Parameter); ok && isInt(p.Type()) {
+		return e.signedAtom(p), true // itself: a quantity of unknown sign
+	}
 	return lform{}, false
 }
 
@@ -1186,7 +1200,112 @@ func (e *lenEng) intLower(v ssa.Value, at *ssa.BasicBlock, d int) (lform, bool) 
 			}
 		}
 	}
+	if p, ok := v.(*ssa.Parameter); ok && isInt(p.Type()) {
+		return e.signedAtom(p), true // itself: a quantity of unknown sign
+	}
 	return lform{}, false
+}
+
+func (e *lenEng) signedAtom(p *ssa.Parameter) lform {
+	k := "s:" + e.key(p, 0)
+	if e.signed == nil {
+		e.signed = map[string]*ssa.Parameter{}
+	}
+	e.signed[k] = p
+	return latom(k)
+}
+
+// nonnegWithParams: the form is not negative when the int parameters that occur in it (with a
+// positive coefficient) are never negative, which is shown at their callers.
+func (e *lenEng) nonnegWithParams(f lform) bool {
+	rest := lform{c: f.c, t: map[string]int64{}}
+	for k, v := range f.t {
+		if strings.HasPrefix(k, "s:") {
+			p := e.signed[k]
+			if v < 0 || p == nil || !e.nonNegInt(p, map[ssa.Value]bool{}, 0) {
+				return false
+			}
+			continue
+		}
+		rest.t[k] = v
+	}
+	return rest.nonneg()
+}
+
+// nonNegInt: the integer v is never negative: a constant, a length, a sum or minimum of such
+// values, a merge of such values (a variable that starts at such a value and is only changed
+// to such values), or a parameter for which every caller passes such a value.
+func (e *lenEng) nonNegInt(v ssa.Value, assumed map[ssa.Value]bool, d int) bool {
+	ok := e.nonNegInt0(v, assumed, d)
+	if !ok && os.Getenv("VERIF_DEBUG") == "lens" && v != nil {
+		fmt.Printf("NONNEG fail d=%d %s = %s\n", d, v.Name(), v)
+	}
+	return ok
+}
+
+func (e *lenEng) nonNegInt0(v ssa.Value, assumed map[ssa.Value]bool, d int) bool {
+	if v == nil || d > 16 {
+		return false
+	}
+	if assumed[v] {
+		return true
+	}
+	switch x := v.(type) {
+	case *ssa.Const:
+		return x.Value != nil && x.Value.Kind() == constant.Int && constant.Sign(x.Value) >= 0
+	case *ssa.Call:
+		if lenCallArg(v) != nil {
+			return true
+		}
+		if bi, ok := x.Call.Value.(*ssa.Builtin); ok && (bi.Name() == "min" || bi.Name() == "max") {
+			all, any := true, false
+			for _, a := range x.Call.Args {
+				if e.nonNegInt(a, assumed, d+1) {
+					any = true
+				} else {
+					all = false
+				}
+			}
+			if bi.Name() == "min" {
+				return all
+			}
+			return any
+		}
+	case *ssa.BinOp:
+		if x.Op == token.ADD {
+			return e.nonNegInt(x.X, assumed, d+1) && e.nonNegInt(x.Y, assumed, d+1)
+		}
+	case *ssa.Phi:
+		assumed[x] = true
+		for _, ed := range x.Edges {
+			if !e.nonNegInt(ed, assumed, d+1) {
+				delete(assumed, x)
+				return false
+			}
+		}
+		return true
+	case *ssa.Parameter:
+		fn := x.Parent()
+		e.buildCallers()
+		if e.escapes[fn] || len(e.callers[fn]) == 0 {
+			return false
+		}
+		idx := -1
+		for i, q := range fn.Params {
+			if q == x {
+				idx = i
+			}
+		}
+		assumed[x] = true
+		for _, call := range e.callers[fn] {
+			if idx < 0 || idx >= len(call.Call.Args) || !e.nonNegInt(call.Call.Args[idx], assumed, d+1) {
+				delete(assumed, x)
+				return false
+			}
+		}
+		return true
+	}
+	return false
 }
 
 // paramFloor: replace the atoms of the function's own list parameters by the minimum over all
@@ -1336,10 +1455,11 @@ func lenProveSite(w *World, fn *ssa.Function, b *ssa.BasicBlock, ins ssa.Instruc
 				}
 			}
 		}
-		if os.Getenv("VERIF_DEBUG") == "lens" && !(room.nonneg() && l.nonneg()) {
+		lowOK := l.nonneg() || e.nonnegWithParams(l) || e.nonNegInt(idx, map[ssa.Value]bool{}, 0)
+		if os.Getenv("VERIF_DEBUG") == "lens" && !(room.nonneg() && lowOK) {
 			fmt.Printf("LENS %s %s: len %s, index ≤ %s, ≥ %s, room %s\n", FuncName(fn), w.Pos(ins.Pos()), n, u, l, room)
 		}
-		return room.nonneg() && l.nonneg()
+		return room.nonneg() && lowOK
 	}
 	switch x := ins.(type) {
 	case *ssa.IndexAddr:
@@ -1361,7 +1481,7 @@ func lenProveSite(w *World, fn *ssa.Function, b *ssa.BasicBlock, ins ssa.Instruc
 			lo, ok := e.intUpper(x.Low, b, 0)
 			hi, ok2 := e.intLower(x.High, b, 0)
 			l, ok3 := e.intLower(x.Low, b, 0)
-			return ok && ok2 && ok3 && hi.sub(lo).nonneg() && l.nonneg()
+			return ok && ok2 && ok3 && hi.sub(lo).nonneg() && (l.nonneg() || e.nonnegWithParams(l) || e.nonNegInt(x.Low, map[ssa.Value]bool{}, 0))
 		}
 	}
 	return false
